@@ -666,3 +666,188 @@ Proof.
 Qed.
 
 End ProgressTheorem.
+
+(* ------------------------------------------------------------------ stuck states *)
+
+Lemma count_pos_inv : forall f l, 1 <= count f l -> exists t tk, nth_error l t = Some tk /\ f (t_pc tk) = true.
+Proof.
+  intros f l. induction l as [| x l IH]; intros H; unfold count in *; cbn in H; [lia |].
+  destruct (f (t_pc x)) eqn:Fx.
+  - exists 0, x. auto.
+  - destruct (IH H) as [t [tk [Hn Hf]]]. exists (S t), tk. auto.
+Qed.
+
+Section Stuck.
+Variable fl : flags.
+Variable E D : byte -> byte.
+Variable M : nat.
+Hypothesis DE : forall x, D (E x) = x.
+Notation step := (step fl).
+Notation sys_step := (sys_step fl).
+Notation ep_step := (ep_step fl E D M).
+Notation dstep := (dstep fl E D M).
+
+(* no transition of this endpoint other than a new application call is enabled *)
+Definition ep_stuck (e : endpoint) (nin nout : bytes) : Prop :=
+  forall cl, (forall m n d, cl <> CSpawn m n d) -> ep_step e nin nout cl = None.
+
+Lemma pump_some : forall e i w g nin nout l y acts,
+  sys_step (e_sys e) l = Some (y, acts) -> TlsDuplex.pump fl e i w g nin nout l <> None.
+Proof.
+  intros e i w g nin nout l y acts H. unfold TlsDuplex.pump. rewrite H. destruct (apply_acts i nout acts). discriminate.
+Qed.
+
+Lemma sys_step_some : forall y t tk lb r,
+  nth_error (y_tasks y) t = Some tk -> step (t_meth tk) (t_buf tk) (y_sh y) (t_pc tk) lb = Some r ->
+  exists y' acts, sys_step y (SStep t lb) = Some (y', acts).
+Proof.
+  intros y t tk lb [[s1 p1] a1] Hn St. cbn. rewrite Hn, St. eauto.
+Qed.
+
+Lemma enabled_call : forall e nin nout t tk,
+  nth_error (tasks_of e) t = Some tk -> t_pc tk = PCall -> ep_step e nin nout (CSsl t) <> None.
+Proof.
+  intros e nin nout t tk Hn Hp. cbn [TlsDuplex.ep_step]. unfold tasks_of in Hn. rewrite Hn.
+  destruct (call E D M (e_ideal e) (t_meth tk) (t_buf tk) (hd [] (deque (y_sh (e_sys e))))) as [[i1 o] wd].
+  assert (exists r, step (t_meth tk) (t_buf tk) (y_sh (e_sys e)) (t_pc tk)
+            (LSsl {| a_meth := t_meth tk; a_arg := expected_arg (t_meth tk) (t_buf tk) (y_sh (e_sys e)); a_out := o; a_wdelta := wd |}) = Some r) as [r St].
+  { rewrite Hp. cbv beta iota delta [TlsPump.step]. cbn [a_meth a_arg a_out a_wdelta]. rewrite meth_eqb_refl, Nat.eqb_refl. cbn [andb negb].
+    cbv zeta. destruct o; try (eexists; reflexivity).
+    destruct (t_meth tk); try (eexists; reflexivity).
+    match goal with |- context [match ?d with [] => Some _ | _ :: _ => Some _ end] => destruct d end; eexists; reflexivity. }
+  destruct (sys_step_some _ _ _ _ _ Hn St) as [y' [acts S]]. eapply pump_some; eauto.
+Qed.
+
+Lemma enabled_lab : forall e nin nout t tk lb r cl i w g nin0,
+  nth_error (tasks_of e) t = Some tk -> step (t_meth tk) (t_buf tk) (shp e) (t_pc tk) lb = Some r ->
+  ep_step e nin nout cl = TlsDuplex.pump fl e i w g nin0 nout (SStep t lb) -> ep_step e nin nout cl <> None.
+Proof.
+  intros e nin nout t tk lb r cl i w g nin0 Hn St Heq. rewrite Heq.
+  destruct (sys_step_some _ _ _ _ _ Hn St) as [y' [acts S]]. eapply pump_some; eauto.
+Qed.
+
+(* what being stuck means for one endpoint that satisfies the invariant *)
+Lemma ep_stuck_shape : forall e nin nout,
+  EInv e -> ep_stuck e nin nout ->
+  (forall t tk, nth_error (tasks_of e) t = Some tk -> pending tk = true -> t_pc tk = PRecving /\ nin = []) /\
+  wbio (shp e) = [] /\ deque (shp e) = [].
+Proof.
+  intros e nin nout I Hst.
+  assert (NoCall : forall t tk, nth_error (tasks_of e) t = Some tk -> t_pc tk <> PCall).
+  { intros t tk Hn Hp. apply (enabled_call e nin nout t tk Hn Hp). apply Hst. intros; discriminate. }
+  assert (NoSending : forall t tk, nth_error (tasks_of e) t = Some tk -> forall k, t_pc tk <> PSending k).
+  { intros t tk Hn k Hp.
+    assert (St : exists r, step (t_meth tk) (t_buf tk) (shp e) (t_pc tk) (LT TSent) = Some r) by (rewrite Hp; eexists; reflexivity).
+    destruct St as [r St].
+    apply (enabled_lab e nin nout t tk (LT TSent) r (CSent t) (e_ideal e) (e_written e) (e_got e) nin Hn St); [reflexivity |].
+    apply Hst. intros; discriminate. }
+  assert (NoFlush : forall t tk, nth_error (tasks_of e) t = Some tk -> forall k, t_pc tk <> PFlush k).
+  { intros t tk Hn k Hp. destruct (send_lock (shp e)) eqn:L.
+    - destruct (ei_lock e I) as [Cs _]. unfold shp in L. rewrite L in Cs. cbn in Cs.
+      destruct (count_pos_inv is_sending (y_tasks (e_sys e))) as [u [tku [Hu Fu]]]; [lia |].
+      destruct (t_pc tku) eqn:Pu; try discriminate. eapply (NoSending u tku Hu); eauto.
+    - assert (St : exists r, step (t_meth tk) (t_buf tk) (shp e) (t_pc tk) LGo = Some r).
+      { rewrite Hp. cbv beta iota delta [TlsPump.step]. unfold TlsPump.go. rewrite L.
+        destruct (wbio (shp e)); [destruct k |]; eexists; reflexivity. }
+      destruct St as [r St].
+      apply (enabled_lab e nin nout t tk LGo r (CGo t) (e_ideal e) (e_written e) (e_got e) nin Hn St); [reflexivity |].
+      apply Hst. intros; discriminate. }
+  assert (Reader : forall t tk, nth_error (tasks_of e) t = Some tk -> wr_pc (t_pc tk) = false -> reader_like (t_meth tk) = true).
+  { intros t tk Hn Hw. destruct (t_meth tk) eqn:Em; try reflexivity.
+    - rewrite (ei_wr e I t tk Hn Em) in Hw. discriminate.
+    - exfalso. exact (ei_nu e I t tk Hn Em). }
+  assert (NoRecvWait : forall t tk, nth_error (tasks_of e) t = Some tk -> forall n, t_pc tk <> PRecvWait n).
+  { intros t tk Hn n Hp. destruct (recv_lock (shp e)) eqn:L.
+    - destruct (ei_lock e I) as [_ Cr]. unfold shp in L. rewrite L in Cr. cbn in Cr.
+      destruct (count_pos_inv is_recving (y_tasks (e_sys e))) as [u [tku [Hu Fu]]]; [lia |].
+      destruct (t_pc tku) eqn:Pu; try discriminate.
+      assert (t = u).
+      { apply (ei_one e I t u tk tku Hn Hu); unfold pending_reader, pending.
+        - rewrite Hp. cbn. apply (Reader t tk Hn). rewrite Hp. reflexivity.
+        - rewrite Pu. cbn. apply (Reader u tku Hu). rewrite Pu. reflexivity. }
+      subst u. unfold tasks_of in Hn. rewrite Hn in Hu. inversion Hu; subst. congruence.
+    - assert (St : exists r, step (t_meth tk) (t_buf tk) (shp e) (t_pc tk) LGo = Some r).
+      { rewrite Hp. cbv beta iota delta [TlsPump.step]. unfold TlsPump.go. rewrite L.
+        destruct (f_recheck fl && negb (Nat.eqb (feeds (shp e)) n)); eexists; reflexivity. }
+      destruct St as [r St].
+      apply (enabled_lab e nin nout t tk LGo r (CGo t) (e_ideal e) (e_written e) (e_got e) nin Hn St); [reflexivity |].
+      apply Hst. intros; discriminate. }
+  split; [| split].
+  - intros t tk Hn Hpend. unfold pending in Hpend.
+    destruct (t_pc tk) as [ | k | k | n | | r] eqn:Hp; try discriminate.
+    + exfalso. eapply NoCall; eauto.
+    + exfalso. eapply NoFlush; eauto.
+    + exfalso. eapply NoSending; eauto.
+    + exfalso. eapply NoRecvWait; eauto.
+    + split; [reflexivity |]. destruct nin as [| b0 nin0]; [reflexivity | exfalso].
+      assert (St : exists r, step (t_meth tk) (t_buf tk) (shp e) (t_pc tk) (LT (TRcvd (firstn 1 (b0 :: nin0)))) = Some r)
+        by (rewrite Hp; eexists; reflexivity).
+      destruct St as [r St].
+      apply (enabled_lab e (b0 :: nin0) nout t tk _ r (CRcvd t 1) (e_ideal e) (e_written e) (e_got e) (skipn 1 (b0 :: nin0)) Hn St);
+        [reflexivity |]. apply Hst. intros; discriminate.
+  - destruct (wbio (shp e)) eqn:Ew; [reflexivity | exfalso].
+    destruct (ei_wbio e I) as [t [tk [Hn F]]]; [rewrite Ew; discriminate |].
+    unfold flusher in F. destruct (t_pc tk) eqn:Hp; try discriminate.
+    + eapply NoCall; eauto.
+    + eapply NoFlush; eauto.
+  - destruct (deque (shp e)) eqn:Ed; [reflexivity | exfalso].
+    destruct (ei_deque e I) as [t [tk [Hn F]]]; [rewrite Ed; discriminate |].
+    unfold dwit in F. apply andb_prop in F. destruct F as [_ F]. destruct (t_pc tk) eqn:Hp; try discriminate.
+    eapply NoCall; eauto.
+Qed.
+
+End Stuck.
+
+(* ------------------------------------------------------------------ the progress theorem *)
+
+Section Final.
+Variable fl : flags.
+Variable E D : byte -> byte.
+Variable M : nat.
+Hypothesis DE : forall x, D (E x) = x.
+Notation ep_step := (ep_step fl E D M).
+Notation dstep := (dstep fl E D M).
+Notation gexec := (gexec fl E D M).
+
+(* no transition other than a new application call is enabled *)
+Definition stuck (c : duplex) : Prop :=
+  forall side cl, (forall m n d, cl <> CSpawn m n d) -> dstep c (side, cl) = None.
+
+Lemma stuck_ep : forall c, stuck c ->
+  ep_stuck fl E D M (dA c) (nBA c) (nAB c) /\ ep_stuck fl E D M (dB c) (nAB c) (nBA c).
+Proof.
+  intros c H. split; intros cl Hc.
+  - specialize (H true cl Hc). unfold TlsDuplex.dstep in H. destruct (ep_step (dA c) (nBA c) (nAB c) cl) as [[[? ?] ?] |]; [discriminate | reflexivity].
+  - specialize (H false cl Hc). unfold TlsDuplex.dstep in H. destruct (ep_step (dB c) (nAB c) (nBA c) cl) as [[[? ?] ?] |]; [discriminate | reflexivity].
+Qed.
+
+Definition has_pending (e : endpoint) : Prop := exists t tk, nth_error (tasks_of e) t = Some tk /\ pending tk = true.
+
+Lemma duplex_progress : forall ls c,
+  gexec duplex0 ls = Some c -> stuck c ->
+  (forall t tk, nth_error (tasks_of (dA c)) t = Some tk -> pending tk = true -> t_pc tk = PRecving /\ nBA c = []) /\
+  (forall t tk, nth_error (tasks_of (dB c)) t = Some tk -> pending tk = true -> t_pc tk = PRecving /\ nAB c = []) /\
+  wbio (shp (dA c)) = [] /\ wbio (shp (dB c)) = [] /\ deque (shp (dA c)) = [] /\ deque (shp (dB c)) = [] /\
+  (has_pending (dB c) -> exists recs, i_rbio (e_ideal (dB c)) = encs E recs /\
+       e_got (dB c) ++ i_plain (e_ideal (dB c)) ++ data_of recs = e_written (dA c)) /\
+  (has_pending (dA c) -> exists recs, i_rbio (e_ideal (dA c)) = encs E recs /\
+       e_got (dA c) ++ i_plain (e_ideal (dA c)) ++ data_of recs = e_written (dB c)).
+Proof.
+  intros ls c H Hst.
+  destruct (GInv_exec fl E D M _ _ _ H (conj (EInv_init true) (EInv_init false))) as [IA IB].
+  destruct (stuck_ep c Hst) as [SA SB].
+  destruct (ep_stuck_shape fl E D M _ _ _ IA SA) as [PA [WA DA]].
+  destruct (ep_stuck_shape fl E D M _ _ _ IB SB) as [PB [WB DB]].
+  destruct (DInv_exec fl E D M DE _ _ _ (gexec_dexec fl E D M _ _ _ H) (DInv_init E)) as [[r1 [S1 P1]] [[r2 [S2 P2]] _]].
+  unfold ep_wbio, ep_deque in *. fold (shp (dA c)) (shp (dB c)) in *.
+  split; [exact PA |]. split; [exact PB |]. split; [exact WA |]. split; [exact WB |]. split; [exact DA |]. split; [exact DB |].
+  split.
+  - intros [t [tk [Hn Hp]]]. destruct (PB t tk Hn Hp) as [_ Hnet]. exists r1.
+    rewrite Hnet, WA in S1. cbn in S1. rewrite app_nil_r in S1. split; [exact S1 |].
+    rewrite DA in P1. cbn in P1. rewrite app_nil_r in P1. exact P1.
+  - intros [t [tk [Hn Hp]]]. destruct (PA t tk Hn Hp) as [_ Hnet]. exists r2.
+    rewrite Hnet, WB in S2. cbn in S2. rewrite app_nil_r in S2. split; [exact S2 |].
+    rewrite DB in P2. cbn in P2. rewrite app_nil_r in P2. exact P2.
+Qed.
+
+End Final.
